@@ -16,6 +16,7 @@
 
 #![cfg_attr(feature = "nightly", feature(allocator_api))]
 #![cfg_attr(feature = "nightly", feature(write_all_vectored))]
+#![cfg_attr(kani, recursion_limit = "512")]
 
 mod compress;
 mod engine;
